@@ -56,27 +56,83 @@ CLAIMS = {
    "contract-based deductive verification, SMT"),
 }
 
+BF = ("BOUNDED stand-in rcheck/fragment (labelled bounded in the evidence, never counted as proved): the real fragment code (set, mutex, bool and BSI fragments, "
+      "every write path incl. bulk/roaring/value imports, snapshots) is executed on seeded random write sequences over a small column/row/value domain and every read "
+      "(row, bit, rows, forEachBit, minRow/maxRow, Blocks checksums, top, value, rangeOp/between, sum/min/max, file-vs-memory) is compared with a map model. ")
+BP = ("BOUNDED stand-in rcheck/pql (labelled bounded, never counted as proved): random PQL write sequences on a 1-node and a 3-node in-process cluster; every read query "
+      "(Row/Range/BSI conditions, set algebra, Count, TopN, Rows, GroupBy with paging, Min/Max/Sum, MinRow/MaxRow, time ranges, Clear) is compared with a map model and between the clusters. ")
+
+CLAIMS.update({
+ "C03": ("proof",
+   "Two kernels only: (*Container).bitmapAdd writes through Thaw, so a frozen (shared/mapped) container is never written in place - the result is either the unfrozen receiver or a fresh container and the "
+   "frozen source's words are unchanged; mergeSegmentIterator.next pairs the segments of two rows by shard without exchanging operands (the slot a segment is returned in is the row it came from) and only advances the "
+   "iterator's own cursors. Clone/Freeze/Union/Intersect/Difference/Xor/OffsetRange bodies and remap/close are not under contract.",
+   TRUST + "Thaw and the container accessors are trusted contracts.",
+   "contract-based deductive verification: frozen-write typestate + frame, SMT"),
+ "C07": ("proof",
+   "Deductive part: the single-bit write paths (*fragment).unprotectedSetBit / unprotectedClearBit against the abstract stored set ($set of the storage bitmap): exactly the addressed position changes, `changed` is exact, "
+   "and the coherence protocol holds afterwards (no cached checksum for the row's block, no cached row object, cache count recomputed from storage, maxRowID >= row). All other write paths and every read path are covered only by the bounded stand-in. " + BF,
+   TRUST + "roaring.Bitmap Add/Remove/CountRange, cache.Add, bitmapCache.Add and incrementOpN (snapshot I/O) are trusted contracts over ghost state; row ids are assumed < 2^44-1.",
+   "contract-based deductive verification (protocol contracts over ghost state) + bounded stand-in"),
+ "C10": ("proof",
+   "Deductive part: after unprotectedSetBit / unprotectedClearBit changed a bit of row r, f.checksums has no entry for block r/100 and is untouched when nothing changed (the cached checksum can never be stale through these paths). "
+   "Blocks() recomputation and the bulk/import/row write paths are covered only by the bounded stand-in (Blocks() checksums compared with checksums recomputed from a model after every write). " + BF,
+   TRUST + "same trusted contracts as C07; hashing is uninterpreted.",
+   "contract-based deductive verification + bounded stand-in"),
+ "C12": ("proof",
+   "Deductive part: after a single-bit write that changed row r the rank/LRU cache entry for r is the count recomputed from storage over exactly r's position range (or the row is forgotten, count 0 = absent), never a stale count. "
+   "TopN itself (top(), filters, thresholds, cache recalculation) is covered only by the bounded stand-ins. " + BF + BP,
+   TRUST + "cache.Add is a trusted contract over the ghost map $cnt (may forget, never misreport); CountRange is trusted against cardRange.",
+   "contract-based deductive verification + bounded stand-in"),
+ "C13": ("exploration",
+   "BOUNDED ONLY - no function of the mutex/bool write paths could be brought under contract in this round (map-valued batches, closures over storage iterators). " + BF +
+   "Mutex and bool fragments: after every write (setBit, clearBit, bulk import with repeated columns, clear imports, roaring import) each column holds at most one row and it is the model's last write.",
+   "bounded exploration; the oracle is a hand-written map model; nothing here is a proof.",
+   "bounded stand-in (model-based execution of the real code)"),
+ "C15": ("proof",
+   "Deductive part: mergeSegmentIterator.next, the pairing kernel under every binary Row operator (Union/Intersect/Difference/Xor): segments are paired exactly when their shards are equal, each returned in its own operand's slot, cursors advance monotonically. "
+   "The roaring set operators under it are in C01 (intersectArrayArray). The executor's expression evaluation, Not/Shift and the shard fan-out are covered only by the bounded stand-in. " + BP,
+   TRUST, "contract-based deductive verification + bounded stand-in"),
+ "C18": ("exploration",
+   "BOUNDED ONLY - calendar arithmetic goes through time.Time, which is outside the generator's subset. " + BP +
+   "Time fields with quantum YMDH: bits set with 16 time stamps around year/month/day boundaries; Row/Rows with from/to ranges aligned to hours are compared with the model's timestamp filter.",
+   "bounded exploration; nothing here is a proof.", "bounded stand-in"),
+ "C19": ("exploration",
+   "BOUNDED ONLY - Field.ClearBit's view skipping is string/time code outside the subset. " + BP +
+   "After Clear(c, f=r) no time range and not the standard view returns c for r (checked over all generated ranges, whatever timestamps the bit was set with).",
+   "bounded exploration; nothing here is a proof.", "bounded stand-in"),
+ "C25": ("proof",
+   "attrBlocks.Diff only: for block lists sorted by ID the result is, in ascending order, exactly the IDs of blocks of the receiver that are absent from the other list or present with a different checksum (soundness, completeness, order; inputs unchanged). "
+   "Attribute merge, persistence (boltdb), caching and map aliasing are not under contract.",
+   TRUST + "bytes.Equal is modelled as byte-wise equality of the two slices.",
+   "contract-based deductive verification: loop invariants, SMT"),
+ "C28": ("proof",
+   "Deductive part: Set/Clear single-bit paths refine the abstract stored set exactly (see C07), which is the common denominator every other write path must match. Path equivalence itself "
+   "(bulk import by IDs, roaring import in both encodings, value imports vs Set) is covered only by the bounded stand-in, which replays the same model writes through different paths and compares all reads. " + BF,
+   TRUST + "same trusted contracts as C07.",
+   "contract-based deductive verification + bounded stand-in"),
+})
+CLAIMS["C14"] = ("proof", CLAIMS["C14"][1] + " BOUNDED additions: " + BF + BP, CLAIMS["C14"][2], CLAIMS["C14"][3] + " + bounded stand-in")
+CLAIMS["C16"] = ("proof", CLAIMS["C16"][1] + " The single-bit write path keeps maxRowID >= every written row (unprotectedSetBit). BOUNDED additions: " + BF + BP, CLAIMS["C16"][2], CLAIMS["C16"][3] + " + bounded stand-in")
+CLAIMS["C17"] = ("proof", CLAIMS["C17"][1] + " BOUNDED addition: " + BP, CLAIMS["C17"][2], CLAIMS["C17"][3] + " + bounded stand-in")
+CLAIMS["C20"] = ("proof",
+   "cluster.partitionNodes returns min(max(ReplicaN,1), len(nodes)) nodes at consecutive ring positions from the hashed index; shardNodes composes it with the partition hash; ownsShard is true exactly when the node's ID is at one of those ring positions "
+   "(the node's own ownership test agrees with the owner list); Nodes.ContainsID and nodePositionByID are exact; removeNodeBasicSorted keeps the ring strictly ordered by ID, removes exactly the named node and keeps every other node in order. "
+   "Distinctness of owners follows from ring positions h..h+k-1 with k <= n (not stated as an obligation). addNodeBasicSorted, the cleaner and anti-entropy call sites are not under contract.",
+   TRUST + "(Hasher).Hash / jmphasher.Hash (0 <= result < n, function of (key,n)) and cluster.partition (fnv) are trusted contracts; string < is an uninterpreted strict total order.",
+   "contract-based deductive verification, SMT")
+
 NA = {
- "C03": "contracts designed (DESIGN.md 5/C03: frozen-write typestate) but not implemented in this round; Thaw/Freeze are only trusted contracts so nothing is claimed",
- "C07": "fragment write paths (FCI ghost-state suite, DESIGN.md 4.4) not implemented: fragment.go functions need map/closure/interface contracts beyond what was built",
- "C08": "restart behaviour is I/O-history; the metadata-codec contracts (DESIGN.md 5/C08) were not implemented",
- "C09": "crash points are not a per-call notion; the two per-call proxies of DESIGN.md 5/C09 were not implemented",
- "C10": "FCI checksum conjunct not implemented (see C07)",
- "C11": "mergeBlock kernel contracts and the bounded pass check not implemented",
- "C12": "cache refinement contracts not implemented",
- "C13": "mutex invariant contracts not implemented",
- "C15": "Row algebra contracts (mergeSegmentIterator.next etc.) not implemented",
- "C18": "calendar arithmetic through time.Time is outside the verifier's subset; the bounded stand-in of DESIGN.md was not built",
- "C19": "string-ordered view skipping is outside the subset; bounded stand-in not built",
- "C21": "map/closure graph code outside the subset; bounded stand-in not built",
- "C22": "interleavings and liveness: no per-call contract expresses them (DESIGN.md section 7)",
- "C23": "decision-table contracts over package initialisers not implemented",
- "C24": "translate-store locking/restart/replication are not per-call; arithmetic kernels not implemented",
- "C25": "attrBlocks.Diff / aliasing contracts not implemented",
- "C26": "generated PEG parser is table code outside the subset; formatter totality not implemented",
- "C27": "encode/decode field-coverage obligations not implemented",
- "C28": "corollary of the FCI suite, which is not implemented",
- "C29": "data-race freedom and linearizability quantify over schedules; the generator has no thread model",
+ "C08": "restart behaviour is an I/O history over the data directory (boltdb, files, protobuf meta); no per-call contract within the generator's subset expresses it, and no bounded stand-in was built",
+ "C09": "crash points are positions in a file-system history, not a per-call notion; contract-based verification of single calls cannot decide it",
+ "C11": "mergeBlock and the syncer are map/closure/RPC code outside the subset; contracts were designed (DESIGN.md 5/C11) but not brought to a state where they discharge, so nothing is claimed",
+ "C21": "resize planning is map/closure graph code (fragSources) outside the subset; not claimed",
+ "C22": "interleavings and liveness of the resize protocol: no per-call contract expresses them (DESIGN.md section 7)",
+ "C23": "the admission table is a package-level map initialised at load time and consulted through HTTP middleware closures; outside the subset, not claimed",
+ "C24": "translate-store locking/restart/replication are histories over files and goroutines; not per-call",
+ "C26": "the PEG parser is generated table-driven code outside the subset; formatter totality not under contract (a defect in Call.String found through the C17 bounded harness is recorded in known_findings.json)",
+ "C27": "protobuf encode/decode goes through generated gogo-proto code and reflection-free but very large marshalers; field-coverage obligations not implemented",
+ "C29": "data-race freedom and linearizability quantify over schedules; the generator models sequential execution only (mutexes are no-ops)",
  "C30": "behaviour lives in CLI/HTTP/csv libraries and process I/O; nothing to contract",
  "C31": "precedence is implemented by viper/cobra/pflag; a contract would restate library documentation",
 }
